@@ -45,6 +45,7 @@ FIELD_TYPES = {
     ('SupvisorsOptions', 'disabilities_file'): TOpt(STR),
     ('SupvisorsOptions', 'rules_files'): TOpt(TList(STR)),
     ('ProcessCommand', 'minimum_ticks'): INT,
+    ('Commander', 'class_name'): STR,
     ('SupvisorsInstanceStatus', 'stats_collector'): TOpt(TObj('StatisticsCollectorProcess')),
 }
 
